@@ -84,6 +84,12 @@ Theorem C17_numbers_wellformed : forall z x,
   is_json_number (dec_Z z) = true /\ is_json_number (float_str (FQ x)) = true.
 Proof. intros z x. split; [apply dec_Z_number|apply float_str_number]. Qed.
 
+(* a tree without duplicate member names reads the same whether a reader keeps the last of several
+   members with one name (serde_json and most readers) or groups them: outside
+   Known_C17_duplicate_names nothing is lost to such a reader *)
+Theorem C17_no_duplicates_no_loss : forall j, has_dup_keys j = false -> norm false j = norm true j.
+Proof. exact norm_no_duplicates. Qed.
+
 (* ---- witnesses: each known class is a real failure of the code as it is ---- *)
 
 Definition w_store (target : sel) (data : list datum) : storev :=
